@@ -58,7 +58,7 @@ def handle : List String → Option String
     -- an integer index goes through `_check_index`: the definition generated from the current source must agree with the model
     pure (match idx with
       | .int i => (PyGen.checkIndex sigs.length i).getD "ok"
-      | _ => "ok")
+      | _ => (PyGen.concatIndex sigs idx).getD "ok")
   | ["c20.mut", sigs, ops, realList, realErrs] => do
     let sigs ← parseNatLists sigs
     let ops ← if ops == "_" then some [] else (ops.splitOn "|").mapM parseMut
